@@ -140,7 +140,7 @@ class TypeGen:
         if depth < 3:
             choices += [("alias", 3), ("interface", 3), ("paren", 1)]
             if len(props) >= 2:
-                choices += [("intersection", 3), ("iface-merge", 2), ("iface-extends", 2)]
+                choices += [("intersection", 3), ("iface-merge", 2), ("iface-extends", 2), ("iface-merge-extends", 2), ("iface-extends-util", 2)]
             if props and all(p.optional for p in props if p.kind != "getter") and all(p.kind != "getter" for p in props):
                 choices += [("Partial", 3)]
             if props and all(not p.optional for p in props):
@@ -175,6 +175,49 @@ class TypeGen:
             cut = 1 + r.below(len(props) - 1)
             self.place("interface %s { %s }" % (b, "; ".join(p.sig() for p in props[cut:])), allow_after)
             self.place("interface %s extends %s { %s }" % (n, b, "; ".join(p.sig() for p in props[:cut])), allow_after)
+            return n
+        if k == "iface-merge-extends":
+            # declaration merging: a LATER declaration of the interface brings the `extends` clause (or each brings one)
+            n, b = self.fresh("ME"), self.fresh("B")
+            cut = 1 + r.below(len(props) - 1)
+            own, c2 = props[:cut], r.below(cut + 1)
+            sig = lambda ps: "; ".join(p.sig() for p in ps)
+            if r.chance(0.3) and len(props) - cut >= 2:
+                # two bases, one per declaration
+                b2, c3 = self.fresh("B"), cut + 1 + r.below(len(props) - cut - 1)
+                self.place("interface %s { %s }" % (b, sig(props[cut:c3])), allow_after)
+                self.place("interface %s { %s }" % (b2, sig(props[c3:])), allow_after)
+                self.place("interface %s extends %s { %s }" % (n, b, sig(own[:c2])), allow_after)
+                self.place("interface %s extends %s { %s }" % (n, b2, sig(own[c2:])), allow_after)
+            else:
+                self.place("interface %s { %s }" % (b, sig(props[cut:])), allow_after)
+                self.place("interface %s { %s }" % (n, sig(own[:c2])), allow_after)
+                self.place("interface %s extends %s { %s }" % (n, b, sig(own[c2:])), allow_after)
+            return n
+        if k == "iface-extends-util":
+            # the parent written with type arguments: `extends Pick<B, ..>`, `extends Omit<B, ..>`, `extends Partial<B>`, `extends Required<B>`
+            n, b = self.fresh("EU"), self.fresh("B")
+            cut = 1 + r.below(len(props) - 1)
+            own, base = props[:cut], props[cut:]
+            forms = ["Pick", "Omit"]
+            if all(p.optional and p.kind != "getter" for p in base):
+                forms.append("Partial")
+            if all(not p.optional for p in base):
+                forms.append("Required")
+            f = r.pick(forms)
+            if f in ("Pick", "Omit"):
+                extra_names = [x for x in NAMES if x not in [p.name for p in props]][:1 + r.below(2)]
+                extra = [Prop(x, "prop", r.chance(0.5), "number") for x in extra_names]
+                self.place("interface %s { %s }" % (b, "; ".join(p.sig() for p in (base + extra))), allow_after)
+                keys = [p.name for p in (base if f == "Pick" else extra)]
+                parent = "%s<%s, %s>" % (f, b, " | ".join("'%s'" % x for x in keys) if keys else "never")
+            else:
+                inner = [Prop(p.name, p.kind, r.chance(0.5) and p.kind != "getter", p.ty) for p in base]
+                for a, bb in zip(inner, base):
+                    a.quoted = getattr(bb, "quoted", False)
+                self.place("interface %s { %s }" % (b, "; ".join(p.sig() for p in inner)), allow_after)
+                parent = "%s<%s>" % (f, b)
+            self.place("interface %s extends %s { %s }" % (n, parent, "; ".join(p.sig() for p in own)), allow_after)
             return n
         if k == "intersection":
             cut = 1 + r.below(len(props) - 1)
@@ -473,7 +516,10 @@ UNRESOLVABLE = ["import type { Ext } from './ext';\nconst C = defineComponent((p
                 "const C = defineComponent((props: NS.Props) => {});",
                 "const C = defineComponent((props: Missing) => {});",
                 "type A = { a: string };\nconst C = defineComponent((props: Pick<A, keyof A>) => {});",
-                "interface I extends Ext2 { a: string }\nimport type { Ext2 } from './e';\nconst C = defineComponent((props: I) => {});"]
+                "interface I extends Ext2 { a: string }\nimport type { Ext2 } from './e';\nconst C = defineComponent((props: I) => {});",
+                "namespace NS { export interface B { b: number } }\ninterface I extends NS.B { a: string }\nconst C = defineComponent((props: I) => {});",
+                "interface I { a: string }\ninterface I extends Ext3 { c: number }\nimport type { Ext3 } from './e';\nconst C = defineComponent((props: I) => {});",
+                "interface I extends Readonly<{ b: number }> { a: string }\nconst C = defineComponent((props: I) => {});"]
 
 
 def c17_body(r, i):
@@ -572,7 +618,7 @@ def c19_body(r, i):
         evs.append(pool.pop(r.below(len(pool))))
 
     def enc(names, d=0):
-        k = r.wpick([("fn", 3), ("fn-union-lit", 2), ("union-of-fn", 2), ("callsig-lit", 3), ("iface", 3), ("iface-extends", 2), ("props", 2), ("alias", 2),
+        k = r.wpick([("fn", 3), ("fn-union-lit", 2), ("union-of-fn", 2), ("callsig-lit", 3), ("iface", 3), ("iface-extends", 2), ("iface-merge-extends", 2), ("props", 2), ("alias", 2),
                      ("lit-alias", 2), ("intersection", 1), ("exported", 1)] if d < 3 else [("callsig-lit", 1)])
         tg.used["emits:" + k] += 1
         lit = " | ".join("'%s'" % x for x in names)
@@ -592,6 +638,15 @@ def c19_body(r, i):
             nme, b = tg.fresh("EE"), tg.fresh("EB")
             tg.place("interface %s { (e: '%s'): void }" % (b, names[0]))
             tg.place("interface %s extends %s { %s }" % (nme, b, "; ".join("(e: '%s'): void" % x for x in names[1:])))
+            return nme
+        if k == "iface-merge-extends" and len(names) >= 2:
+            # declaration merging: the `extends` clause comes with a later declaration of the interface
+            nme, b = tg.fresh("EM"), tg.fresh("EB")
+            own = names[1:]
+            c = r.below(len(own) + 1)
+            tg.place("interface %s { (e: '%s'): void }" % (b, names[0]))
+            tg.place("interface %s { %s }" % (nme, "; ".join("(e: '%s'): void" % x for x in own[:c])))
+            tg.place("interface %s extends %s { %s }" % (nme, b, "; ".join("(e: '%s'): void" % x for x in own[c:])))
             return nme
         if k == "props":
             return "{ " + "; ".join("%s: [v: number]" % (x if x.isidentifier() else "'%s'" % x) for x in names) + " }"
@@ -771,4 +826,84 @@ def c18_products(tier):
             if (si + ti) % 4 == 3:
                 body = "function scope() {\n" + body.replace("export ", "") + "\n}"
             out.append(("dk:%s|%s" % (tn, "-".join(C18_DEFAULT_KINDS[kx][0] for kx in seq)), pre + body + "\n"))
+    return out
+
+
+# ------------------------------------------------------------------------------------------------ `extends`: what the parent IS and WHERE it is declared
+# deterministic part (C16 props side, C19 emits side): an interface whose `extends` parent is every kind of declaration that names an object type
+# (interface, alias of a literal / of an interface / of an intersection / of another alias / in parentheses / of a function type, an interface with
+# parents of its own, a merged interface, an exported one), declared in every scope relation to the child interface and to the call (same list,
+# enclosing list, module level before / after, sibling scope declaring the same name, inner redeclaration), the child used directly, through an
+# alias, inside an intersection, with one parent, two parents or through an intermediate interface
+def _split2(m):
+    parts = m.split("; ")
+    return "; ".join(parts[:1]), "; ".join(parts[1:]) or parts[0]
+
+
+EXT_PARENT_KINDS = [
+    ("interface", lambda n, m: "interface %s { %s }" % (n, m)),
+    ("alias-literal", lambda n, m: "type %s = { %s };" % (n, m)),
+    ("alias-of-interface", lambda n, m: "interface %sI { %s }\ntype %s = %sI;" % (n, m, n, n)),
+    ("alias-intersection", lambda n, m: "type %s = { %s } & { %s };" % ((n,) + _split2(m))),
+    ("alias-chain", lambda n, m: "type %sZ = { %s };\ntype %sY = %sZ;\ntype %s = %sY;" % (n, m, n, n, n, n)),
+    ("interface-chain", lambda n, m: "interface %sRoot { %s }\ninterface %s extends %sRoot { %s }" % ((n, _split2(m)[0], n, n, _split2(m)[1]))),
+    ("interface-extends-alias", lambda n, m: "type %sRoot = { %s };\ninterface %s extends %sRoot { %s }" % ((n, _split2(m)[0], n, n, _split2(m)[1]))),
+    ("merged", lambda n, m: "interface %s { %s }\ninterface %s { %s }" % ((n, _split2(m)[0], n, _split2(m)[1]))),
+    ("exported", lambda n, m: "export interface %s { %s }" % (n, m)),
+    ("alias-paren", lambda n, m: "type %s = ({ %s });" % (n, m)),
+]
+EXT_PROP_PAYLOADS = ["id: string; 'aria-label'?: string; size?: number", "kind: boolean; onPick?(): void; 'a-b': string"]
+EXT_EMIT_PAYLOADS = ["(e: 'foo'): void; (e: 'update:model-value'): void", "(e: 'open'): void; (e: 'close', v: number): void; (e: 'field-change'): void"]
+EXT_ARRANGE = ["same", "fn-child", "fn-child-parent-after", "nested", "block-call", "shadow-sibling", "shadow-inner", "call-inner", "parent-after-in-fn"]
+
+
+def extends_products(prop_side, tier):
+    out = []
+    payloads = EXT_PROP_PAYLOADS if prop_side else EXT_EMIT_PAYLOADS
+    own = "own?: Date" if prop_side else "(e: 'own'): void"
+    other = "zz?: Date; id?: number" if prop_side else "(e: 'zz'): void"
+    second = ("interface QBase { q: number }", "q") if prop_side else ("interface QBase { (e: 'q'): void }", "q")
+    kinds = list(EXT_PARENT_KINDS)
+    if not prop_side:
+        kinds.append(("alias-fn", lambda n, m: "type %s = (e: %s) => void;" % (n, " | ".join(x.split("'")[1].join("''") for x in m.split("; ")))))
+    uses = ["@", "alias", "@ & { %s }" % ("extra?: number" if prop_side else "(e: 'extra'): void")] + ([] if prop_side else ["@ | ((e: 'alt') => void)"])
+    strip = lambda t: t.replace("export ", "")
+    n = 0
+    for (ki, (kn, kd)), (ai, arr), ci, (ui, use) in itertools.product(enumerate(kinds), enumerate(EXT_ARRANGE), range(3), enumerate(uses)):
+        n += 1
+        if tier == "quick" and not (ci == 0 and ui == 0) and (ki + ai + ci + ui) % 4:
+            continue
+        if tier == "search" and (ki + ai + ci + ui) % 2:
+            continue
+        P = kd("Base", payloads[0])
+        P2 = kd("Base", other) if kn != "alias-fn" else "type Base = (e: 'zz') => void;"      # ANOTHER declaration of the same name, for the shadowing arrangements
+        if ci == 0:
+            C = "interface Child extends Base { %s }" % own
+        elif ci == 1:
+            C = "%s\ninterface Child extends Base, QBase { %s }" % (second[0], own)
+        else:
+            C = "interface Mid extends Base { }\ninterface Child extends Mid { %s }" % own
+        ty = use.replace("@", "Child") if use != "alias" else "ViaAlias"
+        pre = "type ViaAlias = Child;\n" if use == "alias" else ""
+        call = lambda tag, t: ("const %s = defineComponent((props: %s) => {});" % (tag, t)) if prop_side else ("const %s = defineComponent((_, ctx: SetupContext<%s>) => {});" % (tag, t))
+        U = pre + call("C1", ty)
+        if arr == "same":
+            m = "\n".join([P, C, U])
+        elif arr == "fn-child":
+            m = P + "\nexport function make() {\n" + C + "\n" + U + "\nreturn C1;\n}"
+        elif arr == "fn-child-parent-after":
+            m = "export const make = () => {\n" + C + "\n" + U + "\nreturn C1;\n};\n" + P
+        elif arr == "nested":
+            m = "function outer() {\n" + strip(P) + "\nconst inner = () => {\n" + C + "\n" + U + "\n};\nreturn inner;\n}"
+        elif arr == "block-call":
+            m = P + "\nfunction make() {\n" + C + "\n{\n" + U + "\n}\n}"
+        elif arr == "shadow-sibling":
+            m = P + "\nfunction sibling() {\n" + strip(P2) + "\n" + call("C0", "Base") + "\n}\nfunction make() {\n" + C + "\n" + U + "\n}"
+        elif arr == "shadow-inner":
+            m = P2 + "\nfunction make() {\n" + strip(P) + "\n" + C + "\n" + U + "\n}\n" + call("C0", "Base")
+        elif arr == "call-inner":
+            m = P + "\n" + C + "\nclass Host { m() {\n" + U + "\n} }"
+        else:
+            m = "function make() {\n" + C + "\n" + U + "\n" + strip(P) + "\n}"
+        out.append(("ext:%s|%s|%d|%d" % (kn, arr, ci, ui), "import { defineComponent } from 'vue';\nimport type { SetupContext } from 'vue';\n" + m + "\n"))
     return out
